@@ -81,9 +81,9 @@ def prepare_tree(tree: pathlib.Path, harness_files, keep=None):
     t = ct.read_text()
     if 'verif_thorough' not in t:
         if re.search(r'^\[features\]', t, re.M):
-            t = re.sub(r'^\[features\]\n', '[features]\nverif_thorough = []\n', t, count=1, flags=re.M)
+            t = re.sub(r'^\[features\]\n', '[features]\nverif_thorough = []\nverif_experimental = []\n', t, count=1, flags=re.M)
         else:
-            t += '\n[features]\nverif_thorough = []\n'
+            t += '\n[features]\nverif_thorough = []\nverif_experimental = []\n'
         ct.write_text(t)
     return touched
 
@@ -239,6 +239,12 @@ def classify(res):
         real = [f for f in res['failed'] if f['status'] == 'FAILURE' and 'unwinding assertion' not in (f['desc'] or '')]
         if res['unwind_fail'] and not real:
             return 'inconclusive', 'unwinding assertion failed (bound too small)'
+        # a declared-shape gate that fires means the tree left the shape the harness declared (e.g. the
+        # folding pass rewrote it in a new way): the harness cannot judge that run - not a violation
+        gate = [f for f in real if 'outside the set declared by the harness' in (f['desc'] or '')]
+        real = [f for f in real if f not in gate]
+        if gate and not real:
+            return 'inconclusive', 'instruction shape outside the harness declaration: ' + '; '.join(f"{f['desc']} @ {f['loc']}" for f in gate[:3])
         if real:
             return 'fail', '; '.join(f"{f['desc']} @ {f['loc']}" for f in real[:4])
         undet = [f for f in res['failed'] if f['status'] != 'FAILURE']
